@@ -32,6 +32,10 @@ type propCfg struct {
 	ThoroughBudg  time.Duration
 	Fuzz          []fuzzTarget // native fuzz campaigns (thorough only)
 	Assumptions   []string
+	// WatchdogS: CPU seconds one case may use before the worker gives up on it (0: the default of the worker).
+	// Reference graphs are evaluated without a memo: rare generated graphs (about one in 10^6) finish only after
+	// minutes, which is slow but no violation of "finishes"
+	WatchdogS int
 }
 
 type fuzzTarget struct {
@@ -49,6 +53,11 @@ func init() {
 	c := props["C11"]
 	c.Race = true
 	props["C11"] = c
+	for _, id := range []string{"C02", "C08", "C09"} {
+		c := props[id]
+		c.WatchdogS = 900
+		props[id] = c
+	}
 	for id, fz := range map[string][]fuzzTarget{
 		"C07": {{"FuzzParseValue", 120}, {"FuzzVarExp", 120}, {"FuzzYAML", 120}, {"FuzzJSONHJSON", 120}, {"FuzzPathOps", 120}},
 		"C17": {{"FuzzJSONRoundTrip", 150}},
@@ -243,6 +252,9 @@ func workerEnv(id, tier string, seed uint64, shard, nshards int, out string, ope
 		// a race report ends the worker at once so that the journal names the case
 		env = append(env, "GORACE=halt_on_error=1 exitcode=66")
 	}
+	if w := props[id].WatchdogS; w > 0 && os.Getenv("VERIF_WATCHDOG_S") == "" {
+		env = append(env, "VERIF_WATCHDOG_S="+strconv.Itoa(w))
+	}
 	return append(env, extra...)
 }
 
@@ -256,7 +268,11 @@ func replayOne(bin, id, tier, file, out string, open []string, race bool) (ok bo
 	if race {
 		mem = 0
 	}
-	res = runWorker(bin, env, []string{"-test.run", "^TestReplay$", "-test.timeout", "10m", "-test.count=1"}, 5*time.Minute, memOrUnlimited(mem))
+	limit := 5 * time.Minute
+	if w := time.Duration(props[id].WatchdogS) * time.Second; 2*w > limit {
+		limit = 2 * w
+	}
+	res = runWorker(bin, env, []string{"-test.run", "^TestReplay$", "-test.timeout", "0", "-test.count=1"}, limit, memOrUnlimited(mem))
 	return res.exit == 0 && bytes.Contains(res.out, []byte("REPLAY-OK")), res
 }
 
